@@ -27,6 +27,7 @@
 #endif
 #include "vpeer.h"
 #include "vs.h"
+#include <pthread.h>
 #include <stdlib.h>
 #include <string.h>
 #include <unistd.h>
@@ -1262,6 +1263,90 @@ run_rep(void *arg)
 
 // =============================================================================
 static double g_exec, g_wall;
+// ---- two threads answer the same request -----------------------------------------------------
+// after ONE received request two application threads send a reply on the same REP socket (or the
+// same context) at the same time: the state machine accepts exactly one of them, the other fails
+// with NNG_ESTATE, and exactly one reply frame reaches the requester.
+static nng_socket r2_sock;
+static nng_ctx    r2_ctx;
+static int        r2_usectx, r2_rv[2];
+static void *
+r2_sender(void *a)
+{
+	int      i = (int) (intptr_t) a;
+	nng_msg *m;
+	if (nng_msg_alloc(&m, 0) != 0 || nng_msg_append(m, i ? "B" : "A", 1) != 0)
+		vs_fail("harness:r2", "msg alloc");
+	r2_rv[i] = r2_usectx ? nng_ctx_sendmsg(r2_ctx, m, 0) : nng_sendmsg(r2_sock, m, 0);
+	if (r2_rv[i] != 0)
+		nng_msg_free(m);
+	return NULL;
+}
+static void
+run_rep2send(void *arg)
+{
+	(void) arg;
+	vh_init(0);
+	VH_OK(nng_rep0_open(&r2_sock));
+	VH_OK(nng_socket_set_ms(r2_sock, NNG_OPT_SENDTIMEO, 100));
+	r2_usectx = vs_choose(VK_ENV, 2);
+	if (r2_usectx)
+		VH_OK(nng_ctx_open(&r2_ctx, r2_sock));
+	int fd = vp_connect_raw(r2_sock, SP_REQ, NULL);
+	if (fd < 0)
+		vs_fail("harness:setup", "raw requester could not connect");
+	vp_rd  *rd = calloc(1, sizeof(*rd));
+	uint8_t id[4] = { 0x80, 0, 0, 7 };
+	if (vp_send(fd, id, 4, "q", 1) != 0)
+		vs_fail("harness:peer", "raw write");
+	vs_settle();
+	nng_msg *m;
+	int      rv = r2_usectx ? nng_ctx_recvmsg(r2_ctx, &m, NNG_FLAG_NONBLOCK)
+	                        : nng_recvmsg(r2_sock, &m, NNG_FLAG_NONBLOCK);
+	if (rv != 0)
+		vs_fail("harness:r2", "request not received: %s", nng_strerror(rv));
+	nng_msg_free(m);
+	pthread_t t[2];
+	vs_window(1);
+	pthread_create(&t[0], NULL, r2_sender, (void *) 0);
+	pthread_create(&t[1], NULL, r2_sender, (void *) 1);
+	pthread_join(t[0], NULL);
+	pthread_join(t[1], NULL);
+	vs_window(0);
+	vs_settle();
+	int nok = (r2_rv[0] == 0) + (r2_rv[1] == 0);
+	int nst = (r2_rv[0] == NNG_ESTATE) + (r2_rv[1] == NNG_ESTATE);
+	int nframes = 0;
+	for (;;) {
+		const uint8_t *p;
+		size_t         len;
+		int            k = vp_next_frame(fd, rd, &p, &len);
+		if (k != 1)
+			break;
+		nframes++;
+		if (len != 5 || memcmp(p, id, 4) != 0 || (p[4] != 'A' && p[4] != 'B'))
+			vs_fail("C04:rep:wire", "reply frame %s", vh_hex(p, len));
+	}
+	vs_nontrivial();
+	if (nok != 1 || nst != 1)
+		vs_fail("C04:rep:estate",
+		    "[one request received, two concurrent %s sends] results %s / %s: exactly one "
+		    "must succeed and the other fail with NNG_ESTATE",
+		    r2_usectx ? "context" : "socket", r2_rv[0] ? nng_strerror(r2_rv[0]) : "success",
+		    r2_rv[1] ? nng_strerror(r2_rv[1]) : "success");
+	if (nframes != 1)
+		vs_fail("C04:rep:duplicate-reply",
+		    "[one request received, two concurrent sends] the requester got %d replies",
+		    nframes);
+	vs_outcome("ctx=%d rv=%d/%d", r2_usectx, r2_rv[0], r2_rv[1]);
+	close(fd);
+	free(rd);
+	if (r2_usectx)
+		nng_ctx_close(r2_ctx);
+	nng_socket_close(r2_sock);
+	vh_fini();
+}
+
 static void
 explore(const char *name, void (*fn)(void *), void *arg)
 {
@@ -1423,8 +1508,22 @@ main(int argc, char **argv)
 			if (affordable(T ? 12000 : 1500)) {
 				explore_race("race-queued-reply", 0, 1, T ? 2 : 1, 1,
 				    T ? 3 : 2);
-				explore_race("race-reply-cancel", 1, T ? 2 : 1,
-				    T ? 2 : 1, 0, T ? 4 : 2);
+				// (the small reply||cancel tree affords three deviations in the
+				// quick tier too: "completion clears its state after the unlock"
+				// slips need the canceller held back across two other threads)
+				explore_race("race-reply-cancel", 1, 2, 2, 0, T ? 4 : 3);
+				{
+					vx_cfg c2;
+					memset(&c2, 0, sizeof(c2));
+					c2.prop     = "C04";
+					c2.scenario = "race-rep-two-senders";
+					c2.run      = run_rep2send;
+					c2.budget[VB_PREEMPT] = T ? 2 : 1;
+					c2.budget[VB_SWITCH]  = 1;
+					c2.budget[VB_ENV]     = -1;
+					c2.total              = T ? 2 : 1;
+					vx_explore(&c2, NULL);
+				}
 				explore_race("race-reply-send", 2, T ? 2 : 1, T ? 2 : 1,
 				    0, T ? 3 : 2);
 			} else
